@@ -39,7 +39,9 @@ EXT_RESTRS = ["ext:leaves..xt_deep", "ext:leaves..xt_deep,leaves..tutorial_final
 
 CORPUS = [("leaves..tutorial1", "net5 net1", {}),                      # restricted worker first: fixed fc23fe8
           ("leaves..tutorial_gui", "net5 net3 net1", {"vm1": "only Fedora\n"}),
-          ("ext:leaves", "net1 net2", graphx.VMR)]                        # every test of the extended scratch suite
+          ("ext:leaves", "net1 net2", graphx.VMR),                        # every test of the extended scratch suite
+          # an exclusion list written with blanks ("no A, B"): every listed variant is excluded, also in lazy expansion
+          ("leaves..tutorial_gui", "net1 net2", {"vm1": "only CentOS\n", "vm2": "no WinXP, Win7\n", "vm3": "only Ubuntu\n"})]
 
 
 def family(rng, n, mode, thorough=False):
